@@ -385,7 +385,7 @@ def term(db, rep):
     rep.require_min(rule, 3)
 
 
-def feed_biofuel(db, rep):
+def feed_biofuel(db, rep, pid="C01"):
     feed_sum = ('variables["stored_food_feed"][month{o}] + variables["crops_food_feed"][month{o}] + '
                 'variables["seaweed_feed"][month{o}] * consts["SEAWEED_KCALS"] + '
                 'variables["cellulosic_sugar_feed"][month{o}] + variables["methane_scp_feed"][month{o}]')
@@ -408,7 +408,7 @@ def feed_biofuel(db, rep):
                     continue
                 ok, resid = implied_eq(t, s - db.spec(t, f'tc["{key}"].kcals[month]'))
                 n_h += 1
-                rep.check(ok, "C01.FB_EQ", f"add_feed_biofuel_to_model[{nm}|{envs}]",
+                rep.check(ok, pid + ".FB_EQ", f"add_feed_biofuel_to_model[{nm}|{envs}]",
                           f"human round: total {nm} drawn must EQUAL the amount charged for the round", loc=OPT,
                           detail=f"residual {resid}")
         else:
@@ -417,7 +417,7 @@ def feed_biofuel(db, rep):
                     continue
                 got = equivalent_ineq(t, s - db.spec(t, f'tc["{key}"].kcals[month]'))
                 n_a += 1
-                rep.check(bool(got), "C01.FB_LE", f"add_feed_biofuel_to_model[{nm}|{envs}]",
+                rep.check(bool(got), pid + ".FB_LE", f"add_feed_biofuel_to_model[{nm}|{envs}]",
                           f"animal round: total {nm} must stay within the demand ceiling", loc=OPT)
             if not is_first(t):
                 for nm, tmpl_s in (("feed", feed_sum), ("biofuel", bio_sum)):
@@ -427,12 +427,12 @@ def feed_biofuel(db, rep):
                         continue
                     got = equivalent_ineq(t, cur - prv)
                     n_m += 1
-                    rep.check(bool(got), "C01.MONO", f"add_feed_biofuel_to_model[{nm}-monotone|{envs}]",
+                    rep.check(bool(got), pid + ".MONO", f"add_feed_biofuel_to_model[{nm}-monotone|{envs}]",
                               f"animal round: {nm} use must never rise from one month to the next "
                               f"(sum[m] <= sum[m-1])", loc=OPT)
-    rep.require_min("C01.FB_EQ", 6)
-    rep.require_min("C01.FB_LE", 6)
-    rep.require_min("C01.MONO", 4)
+    rep.require_min(pid + ".FB_EQ", 6)
+    rep.require_min(pid + ".FB_LE", 6)
+    rep.require_min(pid + ".MONO", 4)
 
 
 def order(index, db, rep):
